@@ -180,7 +180,12 @@ class Executor:
                 tf.write('feasible %d\n' % len(st.pc))
             if os.environ.get('PYVC_TRACE') == 'dump':
                 open('/var/tmp/pyvc-last-%d.smt2' % os.getpid(), 'w').write(s.to_smt2())
-        return s.check() != z3.unsat
+        r = s.check()
+        if r == z3.unknown:
+            # a lapsed budget (busy machine) keeps the path, which is sound but costs obligations on dead code: one retry with more time
+            s.set('timeout', 8 * self.contract.options.get('prune_ms', 150))
+            r = s.check()
+        return r != z3.unsat
 
     # ------------------------------------------------------------------ spec views
     def spec_value(self, st, v):
@@ -2570,7 +2575,16 @@ class Executor:
                 fv = self.view(s2, extra={'result': self.spec_value(s2, rv)})
                 if self.contract.ensures:
                     node = _Line(self.fn.lineno)
-                    for (lab, f) in S.labelled(self.contract.ensures(fv), 'post'):
+                    try:
+                        posts = S.labelled(self.contract.ensures(fv), 'post')
+                    except (TypeError, AttributeError) as e:
+                        if rv is not None:
+                            raise
+                        # the postcondition talks about a result this path does not return (`return None` / falling off the end): the
+                        # path must be infeasible under the precondition -- an obligation for the full solvers, not for the quick path
+                        # pruning (whose small time budget can lapse on a busy machine)
+                        posts = [('returns-a-value', z3.BoolVal(False))]
+                    for (lab, f) in posts:
                         self.oblige(s2, 'post', node, f, 'postcondition', label=lab)
                 # frame: array parameters not listed in `modifies` are unchanged
                 for name, v0 in self.params0.items():
